@@ -113,6 +113,11 @@ def tb(b):
     return 'TRUE' if b else 'FALSE'
 
 
+def api_cfg(consts, sel='AllSel', extra='', npool=4):
+    text = cfg(constants=dict(consts, NPool=npool), extra=extra)
+    return text.replace('CONSTANTS\n', 'CONSTANTS\n  TextSel <- %s\n' % sel)
+
+
 def surface_cfg(depth, prop, pool='Core'):
     text = cfg(constants={'MaxDepth': depth, 'Emit': 'TRUE', 'Prop': '"%s"' % prop, 'PoolName': '"%s"' % pool})
     return text.replace('CONSTANTS\n', 'CONSTANTS\n  Docs <- Pool%s\n' % pool)
@@ -253,6 +258,9 @@ def c02(ctx, api):
                                          cfg(constants={'Emit': 'TRUE', 'Prop': '"C02"', 'Lengths': '{0, 1, 3, 13, 20, 40}',
                                                         'Seeds': '{%d}' % ctx['seed']}), timeout=3000)
     acc.add('GenSort: sort_by / max_by / min_by / sort / max / min on arrays beyond the pool sizes (stability, extremal elements)', st, summ)
+    st, summ = api['run_tlc_to_harness'](ctx, 'intarg', 'GenIntArg', cfg(constants={'Emit': 'TRUE', 'Prop': '"C02"'}), timeout=1500)
+    acc.add('GenIntArg: 32 numeral spellings (3e0, 30e-1, 3.0000000000000001, 1e-400 ...) in 8 integer-argument positions; '
+            'integrality and value decided by Decimal.tla', st, summ)
     return acc.result(RULE_PINNED, extra={'model_checks': ['UnknownFunction', 'ArityIffOutOfRange', 'NoArityWhenInRange',
                                                            'TypeErrorIffOutsideSignature', 'OnlyDynamicCategories']})
 
@@ -358,16 +366,19 @@ def c06(ctx, api):
     acc = Acc()
     thorough = ctx['tier'] == 'thorough'
     consts = {'Emit': 'TRUE', 'Prop': '"C06"', 'MaxCalls': 3, 'MaxDocs': 6, 'NTexts': 8 if thorough else 6}
-    text = cfg(constants=consts, extra='PROPERTIES\n  Immutable')
+    text = api_cfg(consts, extra='PROPERTIES\n  Immutable', npool=4 if thorough else 3)
     st, summ = api['run_tlc_to_harness'](ctx, 'api-bfs', 'API', text, timeout=3000)
-    acc.add('API.tla: every history of <= 3 calls over %d texts x 4 documents (+ fed-back results)' % consts['NTexts'], st, summ)
-    consts = {'Emit': 'TRUE', 'Prop': '"C06"', 'MaxCalls': 2 if thorough else 1, 'MaxDocs': 6, 'NTexts': 72}
-    st, summ = api['run_tlc_to_harness'](ctx, 'api-wide', 'API', cfg(constants=consts), timeout=3000)
-    acc.add('API.tla: every history of <= %d call(s) over all 72 texts (every reordering function x every aliasing source)' % consts['MaxCalls'], st, summ)
+    acc.add('API.tla: every history of <= 3 calls over %d texts x %d documents (+ fed-back results)' % (consts['NTexts'], 4 if thorough else 3), st, summ)
+    consts = {'Emit': 'TRUE', 'Prop': '"C06"', 'MaxCalls': 2 if thorough else 1, 'MaxDocs': 6, 'NTexts': 200}
+    st, summ = api['run_tlc_to_harness'](ctx, 'api-wide', 'API', api_cfg(consts), timeout=3000)
+    acc.add('API.tla: every history of <= %d call(s) over all 95 texts (every reordering function x every aliasing source)' % consts['MaxCalls'], st, summ)
+    consts = {'Emit': 'TRUE', 'Prop': '"C06"', 'MaxCalls': 3 if thorough else 2, 'MaxDocs': 6, 'NTexts': 200}
+    st, summ = api['run_tlc_to_harness'](ctx, 'api-space', 'API', api_cfg(consts, 'SpaceSel'), timeout=3000)
+    acc.add('API.tla: every history of <= %d calls over a text and its variants with non-JMESPath blanks around it' % consts['MaxCalls'], st, summ)
     sim = {'num': 40 if thorough else 8, 'depth': 9, 'seed': ctx['seed']}
-    consts = {'Emit': 'TRUE', 'Prop': '"C06"', 'MaxCalls': 8, 'MaxDocs': 7, 'NTexts': 72}
-    st, summ = api['run_tlc_to_harness'](ctx, 'api-sim', 'API', cfg(constants=consts), simulate=sim, timeout=1500)
-    acc.add('API.tla -simulate: histories of <= 8 calls over 72 texts', st, summ, exhaustive=False)
+    consts = {'Emit': 'TRUE', 'Prop': '"C06"', 'MaxCalls': 8, 'MaxDocs': 7, 'NTexts': 200}
+    st, summ = api['run_tlc_to_harness'](ctx, 'api-sim', 'API', api_cfg(consts), simulate=sim, timeout=1500)
+    acc.add('API.tla -simulate: histories of <= 8 calls over all 95 texts', st, summ, exhaustive=False)
     tv = api['run_api_trace_validation'](ctx, 'api-traces', 400 if thorough else 120, 12, ctx['seed'])
     acc.add_traces('trace validation: random histories recorded from the real API, consumed event by event by TraceAPI.tla '
                    '(POSTCONDITION: every line consumed, no unexplainable event)', tv)
@@ -424,9 +435,12 @@ def c08(ctx, api):
                                          cfg(constants={'Emit': 'TRUE', 'Prop': '"C08"', 'Small': 12 if thorough else 7}), timeout=3000)
     acc.add('GenCall: categories of all failing calls (arity / unknown / type / value)', st, summ)
     consts = {'Emit': 'TRUE', 'Prop': '"C08"', 'MaxCalls': 3, 'MaxDocs': 6, 'NTexts': 16 if thorough else 10}
-    st, summ = api['run_tlc_to_harness'](ctx, 'api', 'API', cfg(constants=consts) if thorough else
-                                         cfg(constants=dict(consts, MaxCalls=2)), timeout=3000)
+    st, summ = api['run_tlc_to_harness'](ctx, 'api', 'API', api_cfg(consts) if thorough else
+                                         api_cfg(dict(consts, MaxCalls=2)), timeout=3000)
     acc.add('API.tla histories: Compile reports static faults, a compiled Expression never does, one-shot Search reports them for every document', st, summ)
+    consts = {'Emit': 'TRUE', 'Prop': '"C08"', 'MaxCalls': 3 if thorough else 2, 'MaxDocs': 6, 'NTexts': 200}
+    st, summ = api['run_tlc_to_harness'](ctx, 'api-space', 'API', api_cfg(consts, 'SpaceSel'), timeout=3000)
+    acc.add('API.tla histories over a text and its variants with non-JMESPath blanks (a syntax fault must not depend on what was searched before)', st, summ)
     return acc.result(RULE_PINNED + '; on every failing call the harness also requires a nil result, exactly one matching exported '
                       'category under errors.Is, and that the error formats',
                       extra={'model_checks': ['SingleCategory', 'StaticIgnoresDoc', 'StaticAtCompile']})
@@ -440,7 +454,7 @@ def c18(ctx, api):
     st, summ = api['run_tlc_to_harness'](ctx, 'pipe', 'GenPipe', cfg(constants={'Emit': 'TRUE', 'Prop': '"C18"'}), timeout=3000)
     acc.add('GenPipe: 29 x 24 pairs (e1, e2) x 15 documents; results fed back as Go values', st, summ)
     consts = {'Emit': 'TRUE', 'Prop': '"C18"', 'MaxCalls': 4 if thorough else 3, 'MaxDocs': 6, 'NTexts': 8 if thorough else 5}
-    st, summ = api['run_tlc_to_harness'](ctx, 'api', 'API', cfg(constants=consts), timeout=3000)
+    st, summ = api['run_tlc_to_harness'](ctx, 'api', 'API', api_cfg(consts), timeout=3000)
     acc.add('API.tla histories with FeedBack (a result becomes a document of later calls)', st, summ)
     return acc.result(RULE_PINNED + '; every successful result is also walked for non-JSON Go types and must survive json.Marshal/decode unchanged',
                       extra={'model_checks': ['PipeLaw', 'Closed']})
@@ -489,6 +503,8 @@ def c14(ctx, api):
                                            cfg(constants={'Emit': 'TRUE', 'Prop': '"C14"', 'Big': 'FALSE'}), timeout=3000)
     acc.add('GenArith: operands up to 34 digits (2^53+1, 2^63 ...) with json / decimal / int64 / uint64 / float carriers mixed in one operation '
             '(expected outcome from Decimal.tla)', st2, summ2)
+    st3, summ3 = api['run_tlc_to_harness'](ctx, 'intarg', 'GenIntArg', cfg(constants={'Emit': 'TRUE', 'Prop': '"C14"'}), timeout=1500)
+    acc.add('GenIntArg: integer arguments in every numeric spelling', st3, summ3)
     return acc.result(RULE_PINNED + '; assignments whose Go kind cannot hold a value exactly are skipped (counted in cases_skipped)',
                       extra={'cases_skipped_carrier_cannot_hold_value': sum(s.get('skipped', 0) for s in [summ])})
 
